@@ -228,16 +228,23 @@ def reconcile(case, policy, mode, tmp):
     return {"status": status, "text": text, "stderr": stderr, "stdout": stdout, "min": mc}
 
 
-def draw_inproc(obj_text, orientation, tmp):
+def draw_inproc(obj_text, orientation, tmp, form=0):
+    """form 0: explicit `tikz` type; 1: type guessed from the `.tex` extension; 2: explicit type, output name without
+    extension, orientation left to its default."""
     inp = os.path.join(tmp, "draw-in.json")
-    outp = os.path.join(tmp, "draw-out.tex")
+    outp = os.path.join(tmp, "draw-out.tex" if form != 2 else "draw-out")
     open(inp, "w").write(obj_text)
     if os.path.exists(outp):
         os.remove(outp)
     stub = render_stub.Stub()
     undo = render_stub.install(stub)
     try:
-        status, stdout, stderr = run_inproc(["draw", "--input", inp, "--output", outp, "--orientation", orientation, "tikz"])
+        argv = ["draw", "--input", inp, "--output", outp]
+        if form != 2:
+            argv += ["--orientation", orientation]
+        if form != 1:
+            argv.append("tikz")
+        status, stdout, stderr = run_inproc(argv)
     except Exception as exc:  # noqa: BLE001
         return {"status": f"exception {type(exc).__name__}: {exc}", "tikz": ""}
     finally:
@@ -299,8 +306,10 @@ def check_case(ctx, case, mode="inproc"):
                 if fails:
                     break
                 orient = "vertical" if (len(ln) + len(pol)) % 2 else "horizontal"
-                d = draw_inproc(ln, orient, tmp)
+                form = (len(ln) // 2) % 3
+                d = draw_inproc(ln, orient, tmp, form)
                 ctx.count("mon.draw")
+                ctx.count(f"mon.draw_form{form}")
                 ctx.count("evaluations")
                 if d["status"] != 0:
                     ctx.viol("C12.draw", sub, f"draw rejected an object written by reconcile: status {d['status']} {d.get('stderr', '')[-200:]}")
